@@ -89,6 +89,82 @@ ASSUME_TRACE = [
 # ------------------------------------------------------------------------------------------------
 # properties decided on TraceFatFs
 
+MC_TREE_CFG = """SPECIFICATION Spec
+CONSTANT FoldTab <- EmptyFold
+CONSTANT MaxOps = %d
+CONSTANT MaxNodes = %d
+CONSTANT Gen = %s
+INVARIANT WellFormed
+INVARIANT ErrorsAreDocumented
+VIEW View
+CHECK_DEADLOCK FALSE
+"""
+
+
+MC_B_CFG = """SPECIFICATION Spec
+CONSTANT N = %d
+CONSTANT SPC = 4
+CONSTANT ROOT = %d
+CONSTANT MaxOps = %d
+CONSTANT Legacy = %s
+INVARIANT StructInv
+INVARIANT FreeExact
+INVARIANT HintInRange
+PROPERTY Refines
+CHECK_DEADLOCK FALSE
+"""
+
+
+def mc_layer_b(wd, tag="b", deep=False):
+    """design-level model checking of Layer B (FatFsB): every history of the modelled algorithms up to the bound, on a fixed-root and a
+    chain-root volume; invariants StructInv (C03), FreeExact/HintInRange (C05), action property Refines (C01)"""
+    n, ops = ((4, 4) if deep else (4, 3)) if core.tier() == "quick" else (5, 5)
+    out = {"spec": "FatFsB", "constants": {"N": n, "SPC": 4, "MaxOps": ops}, "runs": []}
+    states = distinct = 0
+    for root in (6, 0):
+        r = core.mc_run("FatFsB", MC_B_CFG % (n, root, ops, "{}"), wd, "%s-root%d" % (tag, root), workers=8)
+        if not r["ok"]:
+            raise core.ToolError("FatFsB model checking failed (ROOT=%d):\n%s" % (root, r["out_tail"]))
+        out["runs"].append({"ROOT": root, "states": r["states"], "distinct": r["distinct"], "depth": r["depth"], "wall": r["wall"]})
+        states += r["states"]
+        distinct += r["distinct"]
+    out["states"] = states
+    out["distinct"] = distinct
+    out["ok"] = True
+    return out
+
+
+def units_str(u):
+    return "".join(chr(x) for x in u)
+
+
+def tree_programs(wd, max_ops, max_nodes, sample, rng, kset):
+    """design-level exploration of TreeModel (MC_Tree) and one program per transition of its state graph"""
+    mc = core.mc_run("MC_Tree", MC_TREE_CFG % (max_ops, max_nodes, "TRUE"), wd, "tree", want_progs=True)
+    if not mc["ok"]:
+        raise core.ToolError("MC_Tree failed:\n" + mc["out_tail"])
+    hists = mc.pop("progs")
+    mc.pop("out_tail", None)
+    mc["transitions_as_programs"] = len(hists)
+    if sample and len(hists) > sample:
+        hists = rng.sample(hists, sample)
+    progs = []
+    for i, h in enumerate(hists):
+        ops = []
+        for o in h["ops"]:
+            path = "/".join(units_str(c) for c in o["p"])
+            if o["op"] == "rename":
+                ops.append({"op": "rename", "at": "", "src": path, "to": "", "dst": "/".join(units_str(c) for c in o["q"])})
+            elif o["op"] == "list":
+                ops.append({"op": "list", "at": "", "path": path})
+            else:
+                ops.append({"op": o["op"], "at": "", "path": path})
+        ops.append({"op": "unmount"})
+        progs.append({"id": "mc-tree-%d" % i, "cfg": gen.K(kset[i % len(kset)]), "ops": ops, "origin": "tlc:MC_Tree"})
+    mc["replayed"] = len(progs)
+    return mc, progs
+
+
 def c01():
     t0 = time.time()
     wd = workdir("C01")
@@ -97,9 +173,17 @@ def c01():
     res.append(("ns-small", core.campaign("ns-small", fam_ns("C01", ["K1", "K1b", "K2"], scale(40, 400), 40, names), wd)))
     res.append(("ns-wide", core.campaign("ns-wide", fam_ns("C01", ["K3", "K4b", "K5"], scale(10, 100), 60, names, salt=1), wd)))
     res.append(("regress", core.campaign("regress", regress_programs(), wd)))
-    core.finish("C01", LEVEL, res, None, t0,
-                "random namespace programs (create/open/list/remove/rename with live handles) on FAT12/16/32 configurations, every call's result and "
-                "the tree after it judged by TLC against TreeModel; distinct = (op, result kind, error kind) shapes observed",
+    mc, progs = tree_programs(wd, scale(3, 4), scale(4, 5), scale(1500, 0), rng_for("C01", 9), ["K1b", "K2", "K5"])
+    res.append(("mc-tree", core.campaign("mc-tree", progs, wd, n_shards=14)))
+    mcb = mc_layer_b(wd)
+    mc = {"states": mc["states"] + mcb["states"], "distinct": mc["distinct"] + mcb["distinct"], "MC_Tree": mc, "FatFsB": mcb}
+    core.finish("C01", LEVEL, res, mc, t0,
+                "(0) TLC model-checks Layer B (FatFsB: the library's algorithms on a 4-5 cluster volume, every history up to the bound) against the "
+                "action property Refines (a failing call changes nothing, a succeeding one changes exactly what it names); "
+                "(1) TLC explores the reference model exhaustively (MC_Tree: 4 names in 2 fold classes + a multi-slot long name, paths of depth <= 2, "
+                "create/open/list/remove/rename) and every transition of that state graph (distinct tree x operation, with a shortest history) is "
+                "replayed on the real library (quick: a sample); (2) random namespace programs with live handles on FAT12/16/32 configurations; every "
+                "call's result and the tree after it are judged by TLC against TreeModel; distinct = (op, result kind, error kind) shapes observed",
                 ASSUME_TRACE)
 
 
@@ -124,7 +208,7 @@ def c03():
     res.append(("io", core.campaign("io", fam_io("C03", ["K1b", "K2", "K3"], scale(15, 150), 50), wd)))
     res.append(("fill", core.campaign("fill", fam_fill("C03", ["K1", "K1b", "K2"], scale(6, 60)), wd)))
     res.append(("regress", core.campaign("regress", regress_programs(), wd)))
-    core.finish("C03", LEVEL, res, None, t0,
+    core.finish("C03", LEVEL, res, mc_layer_b(wd, deep=True), t0,
                 "namespace, file-I/O and fill-to-full programs; the structural invariants (Fat/DirSlots/FatFsA!StructViol) are evaluated by TLC on the raw "
                 "image after every single call",
                 ASSUME_TRACE)
@@ -150,7 +234,7 @@ def c05():
     res.append(("fill", core.campaign("fill", fam_fill("C05", ["K1", "K1b", "K2"], scale(12, 120)), wd)))
     res.append(("ns", core.campaign("ns", fam_ns("C05", ["K1", "K5"], scale(15, 150), 50, stats_p=0.10), wd)))
     res.append(("io", core.campaign("io", fam_io("C05", ["K1b", "K5"], scale(10, 100), 50), wd)))
-    core.finish("C05", LEVEL, res, None, t0,
+    core.finish("C05", LEVEL, res, mc_layer_b(wd), t0,
                 "fill-to-full / delete-all cycles on tiny volumes plus mixed programs with statistics probes; TLC compares the reported count with the "
                 "table of the raw image and judges every NotEnoughSpace against the pre-state",
                 ASSUME_TRACE)
